@@ -846,7 +846,12 @@ def is_known(kid, case):
 def _same_locs(differs):
     outs = list(differs.values())
     if len(outs) != 2 or not all(isinstance(o.get("invalid"), list) for o in outs): return False
-    return sorted(json.dumps(e[0]) for e in outs[0]["invalid"]) == sorted(json.dumps(e[0]) for e in outs[1]["invalid"])
+    # the entries the two runs do not share: each side's are a key error at a mapping item, or errors inside the value of that
+    # same item (at or below the item's location)
+    a = [e for e in outs[0]["invalid"] if e not in outs[1]["invalid"]]; b = [e for e in outs[1]["invalid"] if e not in outs[0]["invalid"]]
+    if not a or not b: return False
+    related = lambda x, y: x[:len(y)] == y or y[:len(x)] == x
+    return all(any(related(e[0], f[0]) for f in b) for e in a) and all(any(related(e[0], f[0]) for f in a) for e in b)
 
 
 def _crash(why, cls): return any(w == "crash:" + cls for w in why)
